@@ -552,6 +552,25 @@ def check_C11(ctx):
         if info['warn'] == 'True':
             rep.stats['budget_fallback'] += 1
     rep.stats['worst_steps_over_size_squared_x1000'] = int(worst * 1000)
+    # the form the implementation stops at must be rule-free: ask the model whether a step is still possible
+    b2 = Batch()
+    finals = []
+    for e, i, j in recs:
+        out = b.impl[i]
+        if 'final=' in out and 'warn=True' not in b.impl[j] and not out.startswith(('ERROR', 'PYERR', 'WARN')):
+            fin = out.split('final=', 1)[1]
+            finals.append((i, b2.add('STEP %s' % fin)))
+    if finals:
+        b2.model = core.run_model(b2.lines)
+        b2.impl = ['SKIP'] * len(b2.lines)
+        b2.status = ['skip'] * len(b2.lines)
+        for i, k in finals:
+            m = b2.model[k]
+            rep.stats['final_forms_checked'] += 1
+            if m not in ('NONE',) and not m.startswith(('ERROR', 'FUEL')) and 'OverflowError' not in m:
+                rep.oracle_failures.append({
+                    'what': 'simplification stopped at a form to which a rule still applies: %s' % m[:200],
+                    'lines': [(b.lines[i], b.impl[i], b.model[i]), (b2.lines[k], 'SKIP', m)], 'kf': None})
     return rep
 
 
@@ -706,6 +725,21 @@ def check_C12(ctx):
 
 
 # ------------------------------------------------------------------ C13
+def near_special_bases(rng, e):
+    """replace bases by values next to e, 2, 10 (a tolerant comparison with the natural base must show)"""
+    near = [math.nextafter(E, 3.0), math.nextafter(E, 2.0), 2.718281828, 2.718281828459045 * (1 + 1e-10), E,
+            math.nextafter(2.0, 3.0), 2.0000000001, 10.000000001, math.nextafter(10.0, 11.0), 0.5000000001]
+
+    def go(x):
+        if x[0] in ('C', 'V'):
+            return x
+        y = sx.with_children(x, [go(c) for c in sx.children(x)])
+        if y[0] in sx.BPARAM and rng.random() < 0.7:
+            return (y[0], y[1], rng.choice(near))
+        return y
+    return go(e)
+
+
 def check_C13(ctx):
     rng, tier = ctx.rng, ctx.tier
     rep = Report('C13')
@@ -720,12 +754,18 @@ def check_C13(ctx):
         e = gen.rexpr(rng, rng.randint(1, 12), [2, 3, 4])
         if rng.random() < 0.3:
             e = ('C', rng.choice([rng.uniform(-1e6, 1e6), rng.random() * 1e-7, 1e22, 1.5e300, -0.0, 1e16, 123456789012345678, -7]))
+        if rng.random() < 0.35:
+            e = near_special_bases(rng, e)
         es = sx.to_sx(e)
         f = mutate_one(rng, e)
         idx = {'SHOW': b.add('SHOW %s' % es), 'PARSEBACK': b.add('PARSEBACK %s' % es),
                'INJ': b.add('REPRINJ %s %s' % (es, sx.to_sx(f)))}
         r = rng.random()
         p = gen.rpoint(rng, sx.var_ids(e) or [2], extra=rng.randint(0, 1))
+        if rng.random() < 0.4:
+            # coordinates that Python prints in exponent notation, huge and tiny magnitudes, negative zero
+            p = [(k_, rng.choice([1e-10, 3e-20, 1e+20, 2.5e+30, 1e+200, 1e-07, 1e16, 1e22, -0.0, 5e-324, 1.5e-300,
+                                  123456789012345680.0, -1e+100, 7e+70])) for k_, _ in p]
         if r < 0.25:
             idx['X'] = b.add('SHOWPARTIAL %d %s' % (rng.choice([2, 3, 9]), es))
         elif r < 0.4:
@@ -822,6 +862,10 @@ def check_C14(ctx):
     # call at a point with other coordinates; every answer against the pure model
     history_correspondence(ctx, rep, sizes(tier, 300, 5000), ('at', 'located', 'pat', 'dat', 'dfat', 'dfcompat'),
                            maxlen=sizes(tier, 12, 30), what='sequence', partial_points=True)
+    # bare numbers given to sub-expression OBJECTS that also sit inside larger expressions (the variable-name
+    # sets of shared objects must not be touched by building those)
+    import props
+    props.shared_evaluation(ctx, rep)
     return rep
 
 
@@ -878,6 +922,12 @@ def check_C15(ctx):
         rep.distinct.add(a)
         rep.corr(b, i, 'OPPOW')
         rep.corr(b, j, 'OPBIN')
+        for k_ in (i, j):
+            if b.status[k_] == 'disagree' and (kind(b.impl[k_]) == 'REJECT') != (kind(b.model[k_]) == 'REJECT'):
+                # the model accepts exactly the documented operands (C15_pow_integer, C15_rejects)
+                rep.oracle_fail('an operator %s an operand that the documented range %s: %s' % (
+                    'accepted' if kind(b.model[k_]) == 'REJECT' else 'rejected',
+                    'excludes' if kind(b.model[k_]) == 'REJECT' else 'includes', b.impl[k_][:120]), b, [k_])
         rep.stats['pow_' + kind(b.impl[i])] += 1
         rep.sample(b.lines[i] + '  =>  ' + b.impl[i])
     for x, y, i in pairs:
@@ -923,6 +973,11 @@ def check_C16(ctx):
             rep.stats['nonfinite_parameter'] += 1
             continue
         rep.corr(b, i, key[0])
+        if b.status[i] == 'disagree' and (kind(b.impl[i]) == 'REJECT') != (kind(b.model[i]) == 'REJECT'):
+            # the model accepts exactly the documented ranges (C16_ctor_nth, C16_ctor_base, C16_ctor_operands)
+            rep.oracle_fail('a constructor %s an argument that the documented range %s: %s' % (
+                'accepted' if kind(b.model[i]) == 'REJECT' else 'rejected',
+                'excludes' if kind(b.model[i]) == 'REJECT' else 'includes', b.impl[i][:120]), b, [i])
         rep.stats['%s_%s' % (key[0], kind(b.impl[i]))] += 1
         rep.sample(b.lines[i] + '  =>  ' + b.impl[i])
         _ = st
